@@ -113,3 +113,12 @@ package schema
 //@ immutable Field.AutoIncrementIncrement
 //@   writers schema.(*Schema).ParseField
 //@   tags C03
+
+//@ # ---------- C13: a hook flag of the schema is set from the model's method of that very name ----------
+//@ # Schema.BeforeCreate ... Schema.AfterFind decide whether the hook phase runs at all; each is derived from the
+//@ # model method whose name is the hook's name.
+//@ site hook-looked-up-by-its-own-name
+//@   match call reflect.(Value).MethodByName
+//@   in schema.callBackToMethodValue
+//@   min-sites 9
+//@   assert method-name-is-the-hook-asked-for: arg1 == cbType [C13]
